@@ -51,7 +51,7 @@ static void setF(const int *d, vcase *c)
 }
 static const family FAM_QUICK[] = {
     { "ALL(1..3) x V0-6 x colperm5 x u3 x sym2 x stor2 x tune3 x type4 x rhs2", 9, { N_ALL123, 7, 5, 3, 2, 2, 3, 4, 2 }, setA },
-    { "ALL(4) x {V1,V3} x colperm5 x u{1,.1} x tune2 x stor2 x type4", 7, { N_ALL4, 2, 5, 2, 2, 2, 4 }, setB },
+    { "ALL(4) x {V1,V3} x colperm{NAT,MMD_ATA,MMD_AT+A} x u{1,.1} x tune2 x stor2 x type4", 7, { N_ALL4, 2, 3, 2, 2, 2, 4 }, setB },
     { "DEV_1(BASE(6)) x V0-6 x colperm5 x u3 x sym2 x stor2 x tune9 x type4", 9, { 9, 37, 7, 5, 3, 2, 2, 9, 4 }, setC },
     { "MY_PERMC all 4! orders x 5041 patterns(diag kept) x {V1,V3} x u{1,.1} x tune2 x type4", 6, { 5041, 2, 24, 2, 2, 4 }, setF },
 };
@@ -63,11 +63,34 @@ static const family FAM_THOROUGH[] = {
     { "DEV_1(BASE(8)) x V0-7 x colperm5 x u4 x sym2 x stor2 x tune9 x type4", 9, { 9, 65, 8, 5, 4, 2, 2, 9, 4 }, setD },
     { "ALL(4) x V0-7 x colperm5 x u4 x tune9 x stor2 x {d,z} x sym2", 8, { N_ALL4, 8, 5, 4, 9, 2, 2, 2 }, setE },
 };
-#define NFQ ((int)(sizeof FAM_QUICK / sizeof *FAM_QUICK))
-#define NFT ((int)(sizeof FAM_THOROUGH / sizeof *FAM_THOROUGH))
-static long sz_std(int tier) { return tier ? fam_total(FAM_THOROUGH, NFT) : fam_total(FAM_QUICK, NFQ); }
-static void dec_std(int tier, long idx, vcase *c) { if (tier) fam_decode(FAM_THOROUGH, NFT, idx, c); else fam_decode(FAM_QUICK, NFQ, idx, c); }
-static void desc_std(int tier, char *b, size_t cap) { if (tier) fam_describe(FAM_THOROUGH, NFT, b, cap); else fam_describe(FAM_QUICK, NFQ, b, cap); }
+/* other build variants: reduced products (vendor BLAS = the configuration the 24 tests run; 64-bit indices; sanitizers) */
+static void setAs(const int *d, vcase *c)   /* sanitizer builds: ALL(1..3) x {V1,V3} x colperm5 x u{1,.1} x sym2 x stor2 x tune{2,3,5} x type4 */
+{ int e[9] = { d[0], d[1] ? 3 : 1, d[2], d[3], d[4], d[5], d[6], d[7], d[0] & 1 }; setA(e, c); set_tune(c, (int[]){ 2, 3, 5 }[d[6]]); }
+static void setCs(const int *d, vcase *c)   /* sanitizer builds: BASE(6)+first 12 deviations x V1 x colperm{NAT,COLAMD} x tune{3,5,9} x type4 x stor2 */
+{ int e[9] = { d[0], d[1], 1, d[2] ? 3 : 0, 0, 0, d[5], 0, d[4] }; setC(e, c); set_tune(c, (int[]){ 3, 5, 9 }[d[3]]); }
+static const family FAM_ALT[] = {
+    { "ALL(1..3) x V0-6 x colperm5 x u3 x sym2 x stor2 x tune3 x type4 x rhs2", 9, { N_ALL123, 7, 5, 3, 2, 2, 3, 4, 2 }, setA },
+    { "DEV_1(BASE(6)) x V0-6 x colperm5 x u3 x sym2 x stor2 x tune9 x type4", 9, { 9, 37, 7, 5, 3, 2, 2, 9, 4 }, setC },
+};
+static const family FAM_ALTQ[] = {
+    { "ALL(1..3) x V0-6 x colperm5 x u{1,.1} x sym2 x stor2 x tune3 x type4 x rhs2", 9, { N_ALL123, 7, 5, 2, 2, 2, 3, 4, 2 }, setA },
+    { "DEV_1(BASE(6)) first 12 deviations x V0-6 x colperm5 x u{1,.1} x sym2 x stor2 x tune9 x type4", 9, { 9, 12, 7, 5, 2, 2, 2, 9, 4 }, setC },
+};
+static const family FAM_SAN[] = {
+    { "ALL(1..3) x {V1,V3} x colperm5 x u{1,.1} x sym2 x stor2 x tune{2,3,5} x type4", 8, { N_ALL123, 2, 5, 2, 2, 2, 3, 4 }, setAs },
+    { "BASE(6)+12 deviations x V1 x {NATURAL,COLAMD} x tune{3,5,9} x type4 x stor2", 6, { 9, 13, 2, 3, 4, 2 }, setCs },
+};
+#define NF_(F) ((int)(sizeof F / sizeof *F))
+static const family *pick_std(int tier, int *nf)
+{
+    if (!strcmp(wk_variant, "ref")) { if (tier) { *nf = NF_(FAM_THOROUGH); return FAM_THOROUGH; } *nf = NF_(FAM_QUICK); return FAM_QUICK; }
+    if (!strncmp(wk_variant, "asan", 4) || !strcmp(wk_variant, "tsan")) { *nf = NF_(FAM_SAN); return FAM_SAN; }
+    if (tier) { *nf = NF_(FAM_ALT); return FAM_ALT; }
+    *nf = NF_(FAM_ALTQ); return FAM_ALTQ;
+}
+static long sz_std(int tier) { int nf; const family *f = pick_std(tier, &nf); return fam_total(f, nf); }
+static void dec_std(int tier, long idx, vcase *c) { int nf; const family *f = pick_std(tier, &nf); fam_decode(f, nf, idx, c); }
+static void desc_std(int tier, char *b, size_t cap) { int nf; const family *f = pick_std(tier, &nf); fam_describe(f, nf, b, cap); }
 
 static void count_common(const vcase *c, const fs_run *R)
 {
